@@ -335,11 +335,18 @@ def _run_shard(modname, tier, seed, shard, ncases, do_shrink):
             col.record(spec, run_case(mod, spec))
 
     strat = mod.strategy(tier)
+    # Hypothesis starts every run with the all-minimal example; shards other than 0 skip it (it would be the same
+    # case in every shard) and draw one more example instead
+    skip_first = shard > 0
+    calls = [0]
 
     @hypothesis.seed(_shard_seed(seed, shard))
-    @hyp_settings(ncases, False, tier)
+    @hyp_settings(ncases + (1 if skip_first else 0), False, tier)
     @given(strat)
     def search(spec):
+        calls[0] += 1
+        if skip_first and calls[0] == 1:
+            return
         col.record(spec, run_case(mod, spec))
 
     if ncases > 0:
@@ -368,7 +375,7 @@ def _run_shard(modname, tier, seed, shard, ncases, do_shrink):
                 return None
 
             @hypothesis.seed(_shard_seed(seed, shard))
-            @hyp_settings(ncases, True, tier)
+            @hyp_settings(ncases + (1 if skip_first else 0), True, tier)
             @given(strat)
             def shrinker(spec):
                 f = hits(spec)
